@@ -9,7 +9,8 @@ correspondence of component `agent`.  Payloads are their length plus the `stunLi
 
 Reading guide.  `route a` = the selected pair if it is listed, else `bestValid`.  `wrote a now pid luid len` =
 `a` with the local candidate's last-sent time refreshed and, when `len > 0`, pair `pid`'s `pktSent+1`,
-`bytesSent+len`.  `inboundAccepted a e` = the filter written independently of `step`: `some len` iff the
+`bytesSent+len`.  `inboundAccepted a e` = the filter written independently of `step` (`inboundOverflow a e` = its overflow twin: known
+source, payload does not fit): `some len` iff the payload fits into the receive buffer (`rxFits`) and the
 agent is open and started, the payload is not STUN-like, a local candidate listens at the address, and its
 cache holds the source or a current remote candidate of its network type has that address.
 `Inv` = invariant of reachable states (`Inv_init`, `Inv_step`); `run a evs` = the state after a history.
@@ -146,8 +147,12 @@ example : dataOf (step (run a0 selected) (.write 10 30 true)).2 = [] := by decid
 /-! ## Read path -/
 
 /-- Inbound payload in EVERY agent state: nothing is emitted; the payload is queued for the reader (`rx`
-grows by exactly `[len]`) iff the independent filter `inboundAccepted` says `some len`; otherwise the whole
-state is unchanged.  In particular a STUN-like payload never reaches `rx`. -/
+grows by exactly `[len]`) iff the independent filter `inboundAccepted` says `some len` — source known AND the
+payload fits into the 1 MB receive buffer (`rxFits`: queued bytes + 2 per datagram + 2 + `len` ≤ 1 000 000).
+A payload from a known source that does NOT fit (`inboundOverflow`) is dropped: the reader queue, both connection
+counters, the whole checklist (hence every pair counter) and the selection are unchanged — only the source check has
+acted (liveness timestamp of the remote candidate, cache entry).  Otherwise the whole state is unchanged.  In
+particular a STUN-like payload never reaches `rx`. -/
 theorem C07_read_filter (a : Agent) (now la src len : Nat) (stunLike : Bool) :
     (step a (.inboundData now la src len stunLike)).2 = [] ∧
     (inboundAccepted a (.inboundData now la src len stunLike) = some len ∨
@@ -155,43 +160,86 @@ theorem C07_read_filter (a : Agent) (now la src len : Nat) (stunLike : Bool) :
     (inboundAccepted a (.inboundData now la src len stunLike) = some len →
       (step a (.inboundData now la src len stunLike)).1.rx = a.rx ++ [len]) ∧
     (inboundAccepted a (.inboundData now la src len stunLike) = none →
+      inboundOverflow a (.inboundData now la src len stunLike) = false →
       (step a (.inboundData now la src len stunLike)).1 = a) ∧
+    (inboundOverflow a (.inboundData now la src len stunLike) = true →
+      inboundAccepted a (.inboundData now la src len stunLike) = none ∧
+      (step a (.inboundData now la src len stunLike)).1.rx = a.rx ∧
+      (step a (.inboundData now la src len stunLike)).1.checklist = a.checklist ∧
+      (step a (.inboundData now la src len stunLike)).1.selected = a.selected ∧
+      (step a (.inboundData now la src len stunLike)).1.connBytesRecv = a.connBytesRecv ∧
+      (step a (.inboundData now la src len stunLike)).1.connBytesSent = a.connBytesSent) ∧
     (stunLike = true → inboundAccepted a (.inboundData now la src len stunLike) = none) := by
-  refine ⟨inboundData_outs a now la src len stunLike, ?_, ?_, ?_, ?_⟩
+  -- the live case, shared by the clauses below
+  have live : ¬ (a.closed = true ∨ a.started = false ∨ stunLike = true ∨ a.localByAddr la = none) →
+      a.closed = false ∧ a.started = true ∧ stunLike = false ∧ ∃ l, a.localByAddr la = some l := by
+    intro hd
+    refine ⟨?_, ?_, ?_, ?_⟩
+    · cases h' : a.closed with
+      | false => rfl
+      | true => exact absurd (Or.inl h') hd
+    · cases h' : a.started with
+      | true => rfl
+      | false => exact absurd (Or.inr (Or.inl h')) hd
+    · cases h' : stunLike with
+      | false => rfl
+      | true => exact absurd (Or.inr (Or.inr (Or.inl h'))) hd
+    · cases hl : a.localByAddr la with
+      | none => exact absurd (Or.inr (Or.inr (Or.inr hl))) hd
+      | some l => exact ⟨l, rfl⟩
+  refine ⟨inboundData_outs a now la src len stunLike, ?_, ?_, ?_, ?_, ?_⟩
   · dsimp only [inboundAccepted]
     repeat' split
     all_goals simp
   · intro h
     have s := (StepSum_inboundData a now la src len stunLike).rx
     rw [s]; unfold rxAfter; rw [h]
-  · intro h
+  · intro h ho
     by_cases hd : a.closed = true ∨ a.started = false ∨ stunLike = true ∨ a.localByAddr la = none
     · rw [step_inboundData_drop a now la src len stunLike hd]
-    · have hc : a.closed = false := by
-        cases h' : a.closed with
-        | false => rfl
-        | true => exact absurd (Or.inl h') hd
-      have hs : a.started = true := by
-        cases h' : a.started with
-        | true => rfl
-        | false => exact absurd (Or.inr (Or.inl h')) hd
-      have hst : stunLike = false := by
-        cases stunLike with
-        | false => rfl
-        | true => exact absurd (Or.inr (Or.inr (Or.inl rfl))) hd
+    · obtain ⟨hc, hs, hst, l, hl⟩ := live hd
       subst hst
-      cases hl : a.localByAddr la with
-      | none => exact absurd (Or.inr (Or.inr (Or.inr hl))) hd
-      | some l =>
-        rw [inboundAccepted_live a now la src len l hc hs hl] at h
-        have hacc : accepts a l src = false := by
-          cases h' : accepts a l src with
-          | false => rfl
-          | true => rw [h'] at h; cases h
-        rw [step_inboundData a now la src len l hc hs hl, inboundData_reject a now l src len hacc]
+      rw [inboundAccepted_live a now la src len l hc hs hl] at h
+      have hacc : accepts a l src = false := by
+        cases h' : accepts a l src with
+        | false => rfl
+        | true =>
+          cases hf : rxFits a.rx len with
+          | true => rw [h', hf] at h; cases h
+          | false =>
+            simp [inboundOverflow, hc, hs, hl, h', hf] at ho
+      rw [step_inboundData a now la src len l hc hs hl, inboundData_reject a now l src len hacc]
+  · intro ho
+    by_cases hd : a.closed = true ∨ a.started = false ∨ stunLike = true ∨ a.localByAddr la = none
+    · exfalso
+      rcases hd with h | h | h | h <;> simp [inboundOverflow, h] at ho
+    · obtain ⟨hc, hs, hst, l, hl⟩ := live hd
+      subst hst
+      have hacc : accepts a l src = true ∧ rxFits a.rx len = false := by
+        simpa [inboundOverflow, hc, hs, hl] using ho
+      have d := (inboundData_full a now l src len hacc.1 hacc.2).2
+      rw [step_inboundData a now la src len l hc hs hl]
+      refine ⟨?_, d.rx, d.checklist, d.sel, d.recv, d.sent⟩
+      rw [inboundAccepted_live a now la src len l hc hs hl, hacc.1, hacc.2]; rfl
   · intro hs
     subst hs
     exact inboundAccepted_drop a now la src len true (Or.inr (Or.inr (Or.inl rfl)))
+
+/-- a stalled reader: 123 payloads of 8190 bytes from the known peer while pair 1 is selected — 122 fit
+(122 · 8192 = 999 424 bytes with the 2-byte headers), the 123rd would need 1 007 616 > 1 000 000 and is dropped -/
+def floodEvs : List Ev := List.replicate 123 (.inboundData 6 16 32 8190 false)
+
+-- overflow (non-vacuity of the drop clauses): the queue, the connection counter and the selected pair's counters stop
+-- at the 122 accepted payloads; a payload that still fits (574 bytes fill the buffer exactly) is accepted after it
+set_option maxRecDepth 20000 in
+example :
+    inboundOverflow (run a0 (selected ++ floodEvs.take 122)) (.inboundData 6 16 32 8190 false) = true ∧
+    inboundAccepted (run a0 (selected ++ floodEvs.take 122)) (.inboundData 6 16 32 8190 false) = none ∧
+    (run a0 (selected ++ floodEvs)).rx = List.replicate 122 8190 ∧
+    ((run a0 (selected ++ floodEvs)).pairById 1).map ctr = some (0, 0, 122, 999180) ∧
+    inboundAccepted (run a0 (selected ++ floodEvs)) (.inboundData 7 16 32 574 false) = some 574 ∧
+    inboundOverflow (run a0 (selected ++ floodEvs)) (.inboundData 7 16 32 575 false) = true ∧
+    (run a0 (selected ++ floodEvs ++ [.read 8192, .inboundData 8 16 32 8190 false])).rx.length = 122 := by decide
 
 -- accepted from the known peer, discarded from an unknown source / when STUN-like / on another transport
 example : (step (run a0 selected) (.inboundData 6 16 32 50 false)).1.rx = [50] ∧
@@ -212,17 +260,23 @@ example : (run a0 (selected ++ [.inboundData 6 16 32 50 false])).caches = [(1, 3
 
 /-- Hence, along every history, a non-STUN payload arriving on the local candidate `l` (listening at `la`)
 of an open, started agent reaches the reader iff its source is the address of a known (current) remote
-candidate on the same transport. -/
+candidate on the same transport AND it fits into the receive buffer; from a known source it overflows
+(`inboundOverflow`) iff it does not fit. -/
 theorem C07_read_filter_known (init : Agent) (hist : List Ev) (hi : Initial init) (now la src len : Nat) (l : Cand) :
     let a := run init hist
     a.closed = false → a.started = true → a.localByAddr la = some l →
     (inboundAccepted a (.inboundData now la src len false) = some len ↔
-      ∃ r ∈ a.remotes, r.net = l.net ∧ r.addr = src) := by
+      (∃ r ∈ a.remotes, r.net = l.net ∧ r.addr = src) ∧ rxFits a.rx len = true) ∧
+    (inboundOverflow a (.inboundData now la src len false) = true ↔
+      (∃ r ∈ a.remotes, r.net = l.net ∧ r.addr = src) ∧ rxFits a.rx len = false) := by
   intro a hc hs hl
   have h : Inv a := Inv_run init hist (Inv_init init hi)
   rw [inboundAccepted_live a now la src len l hc hs hl,
     ← accepts_iff_known a l src h (List.mem_of_find?_eq_some hl)]
-  cases accepts a l src <;> simp
+  constructor
+  · cases accepts a l src <;> cases rxFits a.rx len <;> simp
+  · simp only [inboundOverflow, hc, hs, hl]
+    cases accepts a l src <;> cases rxFits a.rx len <;> simp
 
 /-- The reader never yields STUN traffic and is FIFO.  Along every history: (1) the reader queue after
 any event is the old queue, minus its head if the event is a `Read` on an open agent (whatever the size of
@@ -401,9 +455,11 @@ theorem C07_write_in_flight (s : Sys) (hr : Reach s) (isB : Bool) (now len : Nat
 application datagram `⟨f, t, data n⟩`: the in-flight list loses exactly that entry (`dup`: nothing); a
 blocked link or a destination nobody open listens on changes no agent; otherwise only the owner `y` of
 the (un-NATed) destination moves, nothing new is emitted, and — with `l` its local candidate there — `y`'s
-reader queue grows by exactly `[n]` iff `y` is started and knows a current remote candidate at the
-NAT-mapped source on `l`'s transport, else `y` is unchanged.  So each `deliver`/`dup` hands the payload
-over at most once, and `drop` never does. -/
+reader queue grows by exactly `[n]` iff `y` is started, knows a current remote candidate at the
+NAT-mapped source on `l`'s transport and the payload fits into `y`'s receive buffer; from a known source a
+payload that does not fit is dropped (queue, checklist — every pair counter — and connection counters unchanged);
+from an unknown source, or when not started, `y` is unchanged.  So each `deliver`/`dup` hands the payload over at
+most once, and `drop` never does. -/
 theorem C07_delivered_once (s : Sys) (hr : Reach s) (k : Nat) (keep : Bool) (f t n : Nat)
     (hk : s.inflight[k]? = some { src := f, dst := t, p := .data n }) :
     (s.deliver k keep).1.inflight = (if keep then s.inflight else removeAt s.inflight k) ∧
@@ -413,7 +469,11 @@ theorem C07_delivered_once (s : Sys) (hr : Reach s) (k : Nat) (keep : Bool) (f t
        (s.deliver k keep).1.agent (!y) = s.agent (!y) ∧
        ∀ l, (s.agent y).localByAddr (s.unmapped t) = some l →
          (((s.agent y).started = true ∧ ∃ r ∈ (s.agent y).remotes, r.net = l.net ∧ r.addr = s.mapped f) →
-           ((s.deliver k keep).1.agent y).rx = (s.agent y).rx ++ [n]) ∧
+           (rxFits (s.agent y).rx n = true → ((s.deliver k keep).1.agent y).rx = (s.agent y).rx ++ [n]) ∧
+           (rxFits (s.agent y).rx n = false →
+             ((s.deliver k keep).1.agent y).rx = (s.agent y).rx ∧
+             ((s.deliver k keep).1.agent y).checklist = (s.agent y).checklist ∧
+             ((s.deliver k keep).1.agent y).connBytesRecv = (s.agent y).connBytesRecv)) ∧
          (¬((s.agent y).started = true ∧ ∃ r ∈ (s.agent y).remotes, r.net = l.net ∧ r.addr = s.mapped f) →
            (s.deliver k keep).1.agent y = s.agent y)) ∧
     (s.drop k).a = s.a ∧ (s.drop k).b = s.b ∧ (s.drop k).inflight = removeAt s.inflight k := by
@@ -443,17 +503,25 @@ theorem C07_delivered_once (s : Sys) (hr : Reach s) (k : Nat) (keep : Bool) (f t
     cases hst : (s.agent y).started with
     | false =>
       have hnone := inboundAccepted_drop (s.agent y) s.now (s.unmapped t) (s.mapped f) n false (Or.inr (Or.inl hst))
-      exact ⟨fun h => (by cases h.1), fun _ => f5.2.2.2.1 hnone⟩
+      have hno : inboundOverflow (s.agent y) (.inboundData s.now (s.unmapped t) (s.mapped f) n false) = false := by
+        simp [inboundOverflow, hst]
+      exact ⟨fun h => (by cases h.1), fun _ => f5.2.2.2.1 hnone hno⟩
     | true =>
       have hlive := inboundAccepted_live (s.agent y) s.now (s.unmapped t) (s.mapped f) n l hopen hst hl
       have hk' := accepts_iff_known (s.agent y) l (s.mapped f) hy (List.mem_of_find?_eq_some hl)
-      refine ⟨fun h => f5.2.2.1 ?_, fun h => f5.2.2.2.1 ?_⟩
-      · rw [hlive, hk'.mpr h.2]; rfl
+      refine ⟨fun h => ⟨fun hf => f5.2.2.1 ?_, fun hf => ?_⟩, fun h => ?_⟩
+      · rw [hlive, hk'.mpr h.2, hf]; rfl
+      · have ho : inboundOverflow (s.agent y) (.inboundData s.now (s.unmapped t) (s.mapped f) n false) = true := by
+          simp [inboundOverflow, hopen, hst, hl, hk'.mpr h.2, hf]
+        obtain ⟨_, o1, o2, _, o4, _⟩ := f5.2.2.2.2.1 ho
+        exact ⟨o1, o2, o4⟩
       · have : accepts (s.agent y) l (s.mapped f) = false := by
           cases h' : accepts (s.agent y) l (s.mapped f) with
           | false => rfl
           | true => exact absurd ⟨rfl, hk'.mp h'⟩ h
-        rw [hlive, this]; rfl
+        refine f5.2.2.2.1 ?_ ?_
+        · rw [hlive, this]; rfl
+        · simp [inboundOverflow, hopen, hst, hl, this]
 
 /-! two agents: A (16) and B (32) know each other; A writes, the hub delivers, duplicates, drops -/
 def sys1 : Sys := ({ hasB := true } : Sys).agentEv false (.addLocal 0 L) |>.1
